@@ -21,7 +21,7 @@ func init() {
 			"(8) all WorkerGrp.Do* delegate to ws[locHash(k)] with their own arguments and locHash(k) lies in [0, muxSize) for every key; the worker loop dequeues with PopAnyway and handles each item once. " +
 			"NOT decided: coherence when a callback fails after partially changing the store; ordering across workers; same-key serialisation under every schedule (follows informally from one FIFO worker per key, C12/C14).",
 		Assumptions: []string{"muxSize >= 1", "callbacks named load*/isNotFound* do not modify the store"},
-		Floors:      map[string]int{"C15.dispatch": 7, "C15.reply-once": 7, "C15.cache-set": 6, "C15.cache-delete": 1, "C15.refresh-on-hit": 5, "C15.dup-add": 1, "C15.key": 7, "C15.cache-writer": 7, "C15.route": 7, "C15.hash-range": 1, "C15.worker-loop": 1, "C15.facade": 4, "C15.reply-channel": 3},
+		Floors:      map[string]int{"C15.dispatch": 7, "C15.reply-once": 7, "C15.cache-set": 6, "C15.cache-delete": 1, "C15.refresh-on-hit": 5, "C15.dup-add": 1, "C15.key": 7, "C15.cache-writer": 7, "C15.route": 7, "C15.hash-range": 1, "C15.worker-loop": 2, "C15.facade": 4, "C15.reply-channel": 3},
 		Run:         runC15,
 	})
 }
@@ -154,6 +154,17 @@ func runC15(c *Ctx) {
 						a.key = false
 						c.violated("C15.key", cons, e.Pos, "a cache call uses a key other than the key of the operation being handled: "+c.short(k.Key()), c.witness(t, i)...)
 					}
+				}
+			}
+		}
+		// the reply is published last: a cache write or delete after SetR happens while the caller (whose get fast
+		// path reads the cache from its own goroutine) already acts on the result
+		if len(replies) == 1 && a.reply {
+			for _, ci := range append(append([]int{}, sets...), dels...) {
+				if ci > replies[0] {
+					a.reply = false
+					c.violated("C15.reply-once", cons, t.Events[ci].Pos, "the cache is updated after the reply was published: the caller can return from the operation and still read the old entry (e.g. a deleted value) from the cache", c.witness(t, ci)...)
+					break
 				}
 			}
 		}
@@ -372,6 +383,7 @@ func runC15(c *Ctx) {
 	c.checkMuxLoop(inl)
 	c.checkMuxFacade()
 	c.checkMuxReplyChannel()
+	c.checkMuxEnqueue()
 }
 
 func (c *Ctx) checkMuxRouting(inl func(*ssa.Function, int) bool) {
@@ -793,5 +805,34 @@ func (c *Ctx) checkMuxReplyChannel() {
 			}
 		}
 		c.check(good && n > 0, "C15.facade", "(*mux.FacadeLRU)."+m, fn.Pos(), "underlying "+under+"(key)", "the LRU facade's "+m+" is not the underlying cache's "+under+" of the same key: the worker's peek refreshes recency (or its get does not), so the cache evicts other entries than the ones the coherence rules assume are kept")
+	}
+}
+
+// checkMuxEnqueue: an accepted operation joins its worker's queue at the back (AddReq): the worker applies operations
+// in the order they were accepted. A retry or shortcut through AddPriorReq (front of the queue, no size check) lets
+// a later operation overtake the ones queued for the same key.
+func (c *Ctx) checkMuxEnqueue() {
+	const rel = "syncx/pipe/mux"
+	fn := c.mustFn(rel, "(*Worker).asyncCall")
+	if fn == nil {
+		return
+	}
+	noInl := func(*ssa.Function, int) bool { return false }
+	ts, _ := c.Trace(fn, TraceConfig{Inline: noInl})
+	good, n := true, 0
+	for _, t := range ts {
+		for i, e := range t.Events {
+			if e.Kind != EvCall || e.Callee == nil || recvNamedName(e.Callee) != "Q" {
+				continue
+			}
+			n++
+			if e.Callee.Name() != "AddReq" && good {
+				good = false
+				c.violated("C15.worker-loop", "(*mux.Worker).asyncCall enqueue", e.Pos, "an operation is put on the worker's queue with "+e.Callee.Name()+" instead of AddReq: it is applied ahead of operations accepted earlier for the same key (and the queue bound is bypassed)", c.witness(t, i)...)
+			}
+		}
+	}
+	if good {
+		c.check(n > 0, "C15.worker-loop", "(*mux.Worker).asyncCall enqueue", fn.Pos(), "AddReq only", "asyncCall does not enqueue the operation on the worker's queue")
 	}
 }
